@@ -2,7 +2,9 @@
 (real n1 as float or complex-typed; real, complex-with-zero-imaginary-part and
 complex n2 with either sign of the imaginary part; incidence 0..90 degrees
 incl. the Brewster angle and both sides of the critical angle), called with
-every combination of scalar / array arguments listed in LAYOUT.
+every combination of scalar / array arguments listed in LAYOUT. The shards
+"reps" hand whole-number n1, n2 and angles over in every other representation
+of c08_reps, one argument at a time and all three together.
 
 References in numpy.longdouble. For a real-valued n2 the stated invariant
 n1 sin(theta1) = n2 sin(theta2) is re-evaluated on the returned angle. For an
@@ -16,9 +18,10 @@ convention), so n2 and its conjugate have the same reference.
 """
 import numpy as np
 
+from checks import c08_reps as reps
+
 LD = np.longdouble
 CLD = np.clongdouble
-EPS = 2.0 ** -52
 K = 16
 PI = 4 * np.arctan(LD(1))
 BAND = 1e-9                 # no lattice point this close to the critical angle
@@ -35,6 +38,10 @@ LAYOUT = {
     "n1-column": ("col", None, "row"),
 }
 N1_TYPES = ("float", "complex")     # complex = complex-typed, zero imaginary
+WHOLE_N1, WHOLE_N2 = (1.0, 2.0), (1.0, 2.0, 3.0)
+# n1 = 2 -> n2 = 1 has its critical angle at 30 degrees
+WHOLE_THETA = {"quick": (0.0, 20.0, 45.0, 60.0, 90.0),
+               "thorough": (0.0, 10.0, 20.0, 40.0, 45.0, 60.0, 80.0, 90.0)}
 
 
 def n2_values(tier):
@@ -93,7 +100,9 @@ def shards(tier):
     """Scalar-n1 modes: one shard per n1; n1-array modes: all n1 at once."""
     return [("optics", tier, n1type, n1, mode)
             for n1type in N1_TYPES for mode, layout in LAYOUT.items()
-            for n1 in (n1_values(tier) if layout[0] is None else [None])]
+            for n1 in (n1_values(tier) if layout[0] is None else [None])] + \
+        [("optics", tier, "reps", rep, mode) for rep in reps.REPS
+         for mode in LAYOUT]
 
 
 def n2_groups(n2s):
@@ -105,22 +114,50 @@ def n2_groups(n2s):
             [n for n in n2s if n[1] < 0]]
 
 
+def n1_sets(mode, n1s, n2):
+    if mode == "n1-n2-arrays":      # element-wise pairs, every rotation
+        return [[n1s[(i + rot) % len(n1s)] for i in range(len(n2))]
+                for rot in range(len(n1s))]
+    return [n1s] if LAYOUT[mode][0] else [[n] for n in n1s]
+
+
+def rep_cases(tier, rep, mode):
+    layout = LAYOUT[mode]
+    thetas = list(WHOLE_THETA[tier])
+    n2s = [(n, 0.0, "float") for n in WHOLE_N2]
+    for n1 in WHOLE_N1:
+        for n2 in WHOLE_N2:
+            for t in thetas:
+                beyond_critical(n1, n2, 0.0, t)      # asserts the empty band
+    for where in ((0,), (1,), (2,), (0, 1, 2)):
+        if rep == "int" and any(layout[i] for i in where):
+            continue                # a list of Python ints is an int64 array
+        for n2 in ([n2s] if layout[1] else [[n] for n in n2s]):
+            for n1_set in n1_sets(mode, list(WHOLE_N1), n2):
+                for theta in ([thetas] if layout[2] else
+                              [[t] for t in thetas]):
+                    yield dict(part="optics", mode=mode, n1type="float",
+                               n1=n1_set, n2=[list(n) for n in n2],
+                               theta=theta,
+                               reps=[rep if i in where else None
+                                     for i in range(3)])
+
+
 def cases(shard):
     _, tier, n1type, n1, mode = shard
+    if n1type == "reps":
+        yield from rep_cases(tier, n1, mode)
+        return
     layout = LAYOUT[mode]
     n1s = n1_values(tier) if n1 is None else [n1]
     n2s = n2_values(tier)
     for n2 in (n2_groups(n2s) if layout[1] else [[n] for n in n2s]):
-        if mode == "n1-n2-arrays":      # element-wise pairs, every rotation
-            n1_sets = [[n1s[(i + rot) % len(n1s)] for i in range(len(n2))]
-                       for rot in range(len(n1s))]
-        else:
-            n1_sets = [n1s]
         ts = thetas(tier, n1s, n2)
-        for n1_set in n1_sets:
+        for n1_set in (n1_sets(mode, n1s, n2) if layout[0] else [n1s]):
             for theta in ([ts] if layout[2] else [[t] for t in ts]):
                 yield dict(part="optics", mode=mode, n1type=n1type,
-                           n1=n1_set, n2=[list(n) for n in n2], theta=theta)
+                           n1=n1_set, n2=[list(n) for n in n2], theta=theta,
+                           reps=[None, None, None])
 
 
 def shaped(values, form):
@@ -158,8 +195,10 @@ def arguments(case):
     n2 = [complex(n[0], n[1]) if n[2] == "complex" else float(n[0])
           for n in case["n2"]]
     theta = [float(t) for t in case["theta"]]
+    given = [[reps.scalar(v, r) for v in values] if r else values
+             for values, r in zip((n1, n2, theta), case["reps"])]
     return tuple(shaped(v, form)
-                 for v, form in zip((n1, n2, theta), LAYOUT[case["mode"]]))
+                 for v, form in zip(given, LAYOUT[case["mode"]]))
 
 
 def describe(n1, n2, theta):
@@ -168,7 +207,7 @@ def describe(n1, n2, theta):
         n1, complex(re, im) if kind == "complex" else re, theta)
 
 
-def judge_snell(n1, n2, theta, got, mixed):
+def judge_snell(n1, n2, theta, got, mixed, eps):
     re, im, _ = n2
     where = describe(n1, n2, theta)
     s1 = LD(n1) * sin_deg(theta)
@@ -181,8 +220,9 @@ def judge_snell(n1, n2, theta, got, mixed):
                 return ("snell/no-nan-beyond-critical-angle", "nan", got,
                         where)
             return None
-        tol = K * EPS * max(n1, re)
-        if not (np.isfinite(got) and -1e-12 <= got <= 90 + 1e-12
+        tol = K * eps * max(n1, re)
+        slack = max(1e-12, 90 * K * eps)     # rad2deg in single precision
+        if not (np.isfinite(got) and -slack <= got <= 90 + slack
                 and abs(s1 - LD(re) * sin_deg(got)) <= tol):
             return ("snell/invariant", "n1 sin(theta1) = %.17g" % float(s1),
                     got, where + "; n2 sin(theta2) = %.17g"
@@ -195,13 +235,13 @@ def judge_snell(n1, n2, theta, got, mixed):
     # double-precision evaluation
     amp = 1 + 2 * abs(q2) / (abs(q2) + q2.real)
     if not (np.isfinite(got) and 0 <= got <= 90 + 1e-12
-            and abs(sin_deg(got) - ref) <= K * EPS * amp):
+            and abs(sin_deg(got) - ref) <= K * eps * amp):
         return ("snell/complex-n2-angle", float(np.arcsin(ref) * 180 / PI),
                 got, where)
     return None
 
 
-def judge_fresnel(n1, n2, theta, rv, rh):
+def judge_fresnel(n1, n2, theta, rv, rh, eps):
     re, im, _ = n2
     where = describe(n1, n2, theta)
     obs = [complex(rv), complex(rh)]
@@ -210,12 +250,12 @@ def judge_fresnel(n1, n2, theta, rv, rh):
             return ("fresnel/nan-beyond-critical-angle", "|Rv|, |Rh| <= 1",
                     obs, where)
         return ("fresnel/nan", "|Rv|, |Rh| <= 1", obs, where)
-    if not (abs(rv) <= 1 + K * EPS and abs(rh) <= 1 + K * EPS):
+    if not (abs(rv) <= 1 + K * eps and abs(rh) <= 1 + K * eps):
         return ("fresnel/magnitude-above-1", "|Rv|, |Rh| <= 1", obs, where)
-    if theta == 0 and not abs(abs(rv) - abs(rh)) <= K * EPS:
+    if theta == 0 and not abs(abs(rv) - abs(rh)) <= K * eps:
         return ("fresnel/normal-incidence", "|Rv| = |Rh|", obs, where)
     if im == 0 and theta == brewster(n1, re) \
-            and not abs(rv) <= BREWSTER_TOL:
+            and not abs(rv) <= max(BREWSTER_TOL, K * eps):
         return ("fresnel/brewster", "Rv = 0", obs, where)
     return None
 
@@ -248,6 +288,11 @@ def call(name, case, args, shape):
 
 
 def check(case):
+    bad, judged = refract(case)
+    return reps.tagged(bad, *case["reps"]), judged
+
+
+def refract(case):
     args = arguments(case)
     shape = np.broadcast(*args).shape
     angle, exc = call("snell", case, args, shape)
@@ -261,11 +306,14 @@ def check(case):
         return [exc], 0
     elems = elements(case)
     mixed = is_mixed(case)
+    # NumPy's deg2rad / sin evaluate an int16 argument in single precision
+    eps = reps.eps(*("float32" if r == "int16" else r for r in case["reps"]))
     bad = {}
     for i, (n1, n2, t) in enumerate(elems):
-        found = [judge_snell(n1, n2, t, float(angle[0][i]), mixed)]
+        found = [judge_snell(n1, n2, t, float(angle[0][i]), mixed, eps)]
         if coeffs:
-            found.append(judge_fresnel(n1, n2, t, coeffs[0][i], coeffs[1][i]))
+            found.append(judge_fresnel(n1, n2, t, coeffs[0][i], coeffs[1][i],
+                                       eps))
         for v in found:
             if v is not None:
                 bad.setdefault(v[0], v)
